@@ -425,7 +425,63 @@ def recreated_file_history(ctx, k):
         shutil.rmtree(d, ignore_errors=True)
 
 
+def neighbours_and_defaults(ctx):
+    """(a) two aggregators alive at once on sibling files whose names differ only after a dot inside the stem (model_0.5.tsv / model_0.7.tsv),
+    the same subjects through both; (b) an aggregator on an evaluator that relies on default arguments, another default evaluator with a
+    decision metric constructed afterwards: every value a result reports is read back from the file it was written to"""
+    d = VERIF / ".work" / f"c18n_{os.getpid()}"
+    shutil.rmtree(d, ignore_errors=True)
+    d.mkdir(parents=True)
+    a1 = np.zeros((4, 8), np.uint8)
+    a1[0:2, 0:3], a1[2:4, 4:7] = 1, 2
+    subj = {"s1": (np.roll(a1, 1, axis=1), a1), "s2": (a1.copy(), a1), "s3": (np.roll(a1, 2, axis=1), a1)}
+    inp = {"neighbours_and_defaults": True}
+    ctx.case(inp, True)
+    ctx.count("dotted_sibling_files_and_default_arguments")
+    try:
+        with quiet(), np.errstate(all="ignore"):
+            outs, exp = {}, {}
+            evs = [impl.Panoptica_Evaluator(expected_input=impl.INPUT["MATCHED"]) for _ in range(2)]
+            aggs = [Panoptica_Aggregator(evs[0], str(d / "model_0.5.tsv")), Panoptica_Aggregator(evs[1], str(d / "model_0.7.tsv"))]
+            try:
+                impl.Panoptica_Evaluator(expected_input=impl.INPUT["MATCHED"], decision_metric=impl.METRICS["clDSC"], decision_threshold=0.5)
+            except Exception:
+                pass
+            for name, (p, r) in subj.items():
+                for k, agg in enumerate(aggs):
+                    exp[(k, name)] = evs[k].evaluate(p, r)["ungrouped"][0].to_dict()
+                    agg.evaluate(p, r, name)
+        for k, fn in enumerate(("model_0.5.tsv", "model_0.7.tsv")):
+            try:
+                with quiet():
+                    st = Panoptica_Statistic.from_file(str(d / fn))
+            except Exception as e:
+                ctx.violation(f"C18 violated: {fn} (written next to its sibling, three subjects each) cannot be read by the statistics loader: {type(e).__name__}: {str(e)[:100]}", inp,
+                              key={"kind": "loader-fails"})
+                return
+            if sorted(st.subjectnames) != sorted(subj):
+                ctx.violation(f"C18 violated: {fn} holds the subjects {st.subjectnames}; {sorted(subj)} were evaluated into it", inp, key={"kind": "roundtrip"})
+                return
+            for name in subj:
+                with quiet():
+                    one = st.get_one_subject(name)["ungrouped"]
+                for m, v in exp[(k, name)].items():
+                    want = classify(v)
+                    if m not in one:
+                        ctx.violation(f"C18 violated: metric {m!r} reported by the result of {name!r} is not a column of {fn}", inp, key={"kind": "roundtrip"})
+                        return
+                    got = one[m]
+                    if not ((want is None and got is None) or (want is not None and got is not None and float(got) == want)):
+                        ctx.violation(f"C18 violated: {fn}: value of {m} for {name!r}: result reports {v!r}, loader returns {got!r}", inp, key={"kind": "roundtrip"})
+                        return
+    except Exception as e:
+        ctx.violation(f"C18 violated: evaluating three subjects into two sibling files raised {type(e).__name__}: {str(e)[:140]}", inp, key={"kind": "roundtrip"})
+    finally:
+        shutil.rmtree(d, ignore_errors=True)
+
+
 def run(ctx):
+    neighbours_and_defaults(ctx)
     for k in range(2):
         recreated_file_history(ctx, k)
     locale_loader(ctx, "locale")
@@ -443,6 +499,9 @@ def search(ctx):
 
 
 def replay(ctx, rec):
+    if rec["input"].get("neighbours_and_defaults"):
+        neighbours_and_defaults(ctx)
+        return
     if rec["input"].get("history") == "recreated-file":
         recreated_file_history(ctx, 0 if rec["input"]["metrics_a"] == ["IOU", "DSC"] else 1)
         return
